@@ -747,27 +747,81 @@ fn run_job(job: ThreadJob, world: &World, stats: &[Arc<Stats>], results: &Mutex<
 
 // ------------------------------------------------------------------ starvation (single-threaded)
 
+/// Tasks that keep each other and themselves hot: every poll may wake itself and any other task
+/// (also ones that are hot already). Whoever is hot must be polled within a bounded number of ticks.
 fn starvation() -> RunResult {
     let ntasks = 1 + sim::range("tasks", 0, 5) as usize;
     let max_interval = 1 + sim::range("max.interval", 0, 3) as u32;
-    let rounds: Vec<u32> = (0..ntasks).map(|_| 1 + sim::range("rounds", 0, 6) as u32).collect();
-    sim::log(|| format!("starvation: {ntasks} self-waking tasks with {rounds:?} rounds, max_interval {max_interval}"));
+    let rounds: Vec<u32> = (0..ntasks).map(|_| 1 + sim::range("rounds", 0, 8) as u32).collect();
+    // wakes[i] = per round: does task i wake itself, and which other tasks does it wake
+    let plans: Vec<Vec<(bool, Vec<usize>)>> = (0..ntasks)
+        .map(|i| {
+            (0..rounds[i])
+                .map(|_| {
+                    let me = sim::flip("wake.self", 2, 3);
+                    let others = (0..ntasks).filter(|j| *j != i && sim::flip("wake.other", 1, 3)).collect();
+                    (me, others)
+                })
+                .collect()
+        })
+        .collect();
+    sim::log(|| format!("starvation: max_interval {max_interval}; per task and round (self-wake, others woken): {plans:?}"));
+    struct W {
+        wakers: Vec<Option<Waker>>,
+        /// epoch at which the task became hot (woken while not hot), None = cold
+        hot_since: Vec<Option<u64>>,
+        done: Vec<bool>,
+        polls: Vec<u32>,
+    }
     struct Hot {
-        left: u32,
-        polled_in: Arc<Mutex<Vec<u64>>>,
+        id: usize,
+        plan: Vec<(bool, Vec<usize>)>,
+        pos: usize,
+        w: Arc<Mutex<W>>,
         epoch: Arc<AtomicU64>,
     }
     impl Future for Hot {
         type Output = ();
 
         fn poll(mut self: Pin<&mut Self>, cx: &mut Context<'_>) -> Poll<()> {
-            self.polled_in.lock().unwrap().push(self.epoch.load(SeqCst));
-            if self.left == 0 {
-                return Poll::Ready(());
+            let e = self.epoch.load(SeqCst);
+            let id = self.id;
+            let step = self.plan.get(self.pos).cloned();
+            self.pos += 1;
+            let mut to_wake: Vec<Waker> = Vec::new();
+            {
+                let mut w = self.w.lock().unwrap();
+                w.polls[id] += 1;
+                w.hot_since[id] = None;
+                w.wakers[id] = Some(cx.waker().clone());
+                match &step {
+                    None => {
+                        w.done[id] = true;
+                        w.wakers[id] = None;
+                    }
+                    Some((me, others)) => {
+                        let mark = |w: &mut W, j: usize| {
+                            if !w.done[j] && w.hot_since[j].is_none() {
+                                w.hot_since[j] = Some(e);
+                            }
+                        };
+                        if *me {
+                            mark(&mut w, id);
+                            to_wake.push(cx.waker().clone());
+                        }
+                        for j in others {
+                            if let Some(wk) = w.wakers[*j].clone() {
+                                mark(&mut w, *j);
+                                to_wake.push(wk);
+                            }
+                        }
+                    }
+                }
             }
-            self.left -= 1;
-            cx.waker().wake_by_ref();
-            Poll::Pending
+            for wk in to_wake {
+                wk.wake();
+            }
+            if step.is_none() { Poll::Ready(()) } else { Poll::Pending }
         }
     }
     let ex = Executor::with_config(ExecutorConfig {
@@ -777,34 +831,56 @@ fn starvation() -> RunResult {
         waker: None,
     });
     let epoch = Arc::new(AtomicU64::new(0));
-    let logs: Vec<Arc<Mutex<Vec<u64>>>> = (0..ntasks).map(|_| Arc::default()).collect();
+    let w = Arc::new(Mutex::new(W {
+        wakers: vec![None; ntasks],
+        // freshly spawned tasks are runnable
+        hot_since: vec![Some(0); ntasks],
+        done: vec![false; ntasks],
+        polls: vec![0; ntasks],
+    }));
     for i in 0..ntasks {
         ex.spawn(Hot {
-            left: rounds[i],
-            polled_in: logs[i].clone(),
+            id: i,
+            plan: plans[i].clone(),
+            pos: 0,
+            w: w.clone(),
             epoch: epoch.clone(),
         })
         .detach();
     }
+    // a hot task is at worst behind every other task once
     let bound = (ntasks as u64).div_ceil(max_interval as u64) + 1;
     let mut ticks = 0u64;
     loop {
-        epoch.fetch_add(1, SeqCst);
+        let e = epoch.fetch_add(1, SeqCst) + 1;
         ticks += 1;
-        if !ex.tick() {
+        let more = ex.tick();
+        {
+            let w = w.lock().unwrap();
+            for i in 0..ntasks {
+                if let Some(since) = w.hot_since[i] {
+                    if !w.done[i] && e - since > bound {
+                        simcore::violation!(
+                            "starved",
+                            "task {i} has been runnable since tick {since} and was still not polled after tick {e}; {ntasks} tasks with max_interval {max_interval} allow a wait of at most {bound} ticks (polls so far {:?})",
+                            w.polls
+                        );
+                    }
+                }
+            }
+        }
+        if !more {
             break;
         }
-        if ticks > 10_000 {
-            simcore::violation!("step-bound", "self-waking tasks never finish");
+        if ticks > 20_000 {
+            simcore::violation!("step-bound", "tasks never finish");
         }
     }
-    for (i, l) in logs.iter().enumerate() {
-        let l = l.lock().unwrap();
-        simcore::check!(l.len() as u32 == rounds[i] + 1, "poll-count", "task {i} polled {} times, plan says {}", l.len(), rounds[i] + 1);
-        let mut prev = 0u64;
-        for e in l.iter() {
-            simcore::check!(e - prev <= bound, "starved", "task {i} (hot the whole time) waited {} ticks between polls; {ntasks} tasks with max_interval {max_interval} allow at most {bound}", e - prev);
-            prev = *e;
+    // whoever is still hot when the executor reports nothing hot was forgotten
+    let w = w.lock().unwrap();
+    for i in 0..ntasks {
+        if w.hot_since[i].is_some() && !w.done[i] {
+            simcore::violation!("lost-wake", "task {i} was woken but the executor reports no hot task and never polled it (polls {:?})", w.polls);
         }
     }
     Ok(())
